@@ -154,6 +154,14 @@ func (fr *Frame) callFunction0(st *State, fn *ssa.Function, args []Val, binds []
 	if fc != nil && fc.Spawns != "" {
 		fr.spawnViaCall(st, fc, args, pos)
 	}
+	if fc != nil && fc.Calls != "" {
+		// a callback the callee may run (sync.Once.Do): the callback's own preconditions must hold here
+		for i, p := range fc.Params {
+			if p == fc.Calls && i < len(args) && args[i].K == KClosure && fr.hookRoot() != nil {
+				fr.spawnPreFn(st, args[i].Fn, args[i].Binds, nil, pos)
+			}
+		}
+	}
 	if fc != nil && !fc.Inline {
 		fc.Used = true
 		return fr.applyContract(st, fc, sig, args, pos, shortKey(key))
